@@ -29,7 +29,56 @@ fn meta(_ctx: &Ctx) -> EvidenceMeta {
     }
 }
 
-pub fn diff_case(_ctx: &Ctx, input: &Input, do_gc: bool) -> CaseResult {
+/// Does the input name a function with `ref.func` in code that is declared
+/// (outside code) only by element segments that the GC pass may remove?
+pub fn passive_only_declaration(bytes: &[u8]) -> bool {
+    use crate::decode::{ElemItems, ElemMode, ExtKind};
+    use crate::ops::Imm;
+    let d = match crate::decode::decode(bytes) {
+        Ok(d) => d,
+        Err(_) => return false,
+    };
+    let mut robust = std::collections::HashSet::new();
+    let mut passive = std::collections::HashSet::new();
+    for e in &d.exports {
+        if e.kind == ExtKind::Func {
+            robust.insert(e.index);
+        }
+    }
+    let funcs_of = |ops: &[crate::ops::Op]| -> Vec<u32> {
+        ops.iter()
+            .filter(|o| o.name == "RefFunc")
+            .filter_map(|o| match o.imms.first() {
+                Some(Imm::Func(f)) => Some(*f),
+                _ => None,
+            })
+            .collect()
+    };
+    for g in &d.globals {
+        robust.extend(funcs_of(&g.init));
+    }
+    for e in &d.elems {
+        let items: Vec<u32> = match &e.items {
+            ElemItems::Funcs(v) => v.clone(),
+            ElemItems::Exprs(_, v) => v.iter().flat_map(|x| funcs_of(x)).collect(),
+        };
+        // passive segments and active segments of module-defined tables are
+        // removed by the pass when nothing else refers to them / their table
+        let removable = match &e.mode {
+            ElemMode::Passive => true,
+            ElemMode::Active { table, .. } => (*table as usize) >= d.imp_tables.len(),
+            ElemMode::Declared => false,
+        };
+        if removable {
+            passive.extend(items);
+        } else {
+            robust.extend(items);
+        }
+    }
+    d.funcs.iter().any(|f| funcs_of(&f.ops).iter().any(|x| !robust.contains(x) && passive.contains(x)))
+}
+
+pub fn diff_case(ctx: &Ctx, input: &Input, do_gc: bool) -> CaseResult {
     let mut out = CaseOut::default();
     let (bytes, origin, sb) = match input {
         Input::Choices { gen, bytes } => {
@@ -62,7 +111,15 @@ pub fn diff_case(_ctx: &Ctx, input: &Input, do_gc: bool) -> CaseResult {
             out.label("skip:walrus-rejected(C05)");
             return Ok(out);
         }
-        Err(_) => {
+        Err(f) => {
+            // C06: a module that emits without the pass but not after it has
+            // been broken by the pass
+            if do_gc && matches!(wal::roundtrip(&bytes, wal::Cfg::plain(), false), Ok(Some(_))) {
+                return Err(Failure::new(
+                    format!("gc-breaks-the-module:{}", f.signature),
+                    format!("parse>emit succeeds, parse>gc>emit panics: {} [{}]", f.detail, origin),
+                ));
+            }
             out.label("skip:panic(C02)");
             return Ok(out);
         }
@@ -83,6 +140,19 @@ pub fn diff_case(_ctx: &Ctx, input: &Input, do_gc: bool) -> CaseResult {
     if do_gc {
         // C06 also requires a valid module with the same exports
         if let Err(e) = validate_walrus(&emitted) {
+            // one recorded cause: a function that reachable code names with
+            // `ref.func` and that only an unreferenced passive element segment
+            // declares; the pass removes the segment
+            if e.contains("undeclared function reference") && passive_only_declaration(&bytes) {
+                ctx.known_or(
+                    &mut out,
+                    Failure::new(
+                        "gc-output-invalid:undeclared function reference:only-declaration-was-an-element-segment-the-pass-removes",
+                        format!("output of gc+emit rejected by the reference validator: {} [{}]", e, origin),
+                    ),
+                )?;
+                return Ok(out);
+            }
             return Err(Failure::new(
                 format!("gc-output-invalid:{}", super::c02::normalise_msg(&e)),
                 format!("output of gc+emit rejected by the reference validator: {} [{}]", e, origin),
